@@ -2,6 +2,7 @@
 from __future__ import annotations
 
 import datetime as _dt
+import random
 import types
 from fractions import Fraction
 
@@ -132,16 +133,20 @@ class JDProvider:
         self.ns, self.memo = ns, {}
 
     def __call__(self, d):
-        key = (z3.simplify(d.n).get_id(), z3.simplify(d.sod).get_id())
+        tot = z3.simplify(d.tot)
+        key = tot.get_id()
         if key not in self.memo:
             p = cur()
-            p.keep += [z3.simplify(d.n), z3.simplify(d.sod)]
+            p.keep.append(tot)
             x = fp.fresh_float(f"J{len(self.memo)}", Fraction(4830041, 2), Fraction(4976899, 2), -31)
-            exact = rv(JD_1901) + z3.ToReal(d.n) + z3.ToReal(d.sod) / 86400
+            exact = rv(JD_1901) + z3.ToReal(tot) / 86400
             ulp = rv(Fraction(1, 2 ** 31))
             p.assume(z3.And(x.t - exact <= ulp, exact - x.t <= ulp))
-            self.memo[key] = x
-        return self.ns.JulianDate(self.memo[key])
+            # functional consistency with every earlier application (the same instant has the same Julian date)
+            for tot2, x2 in self.memo.values():
+                p.assume(z3.Implies(tot == tot2, x.t == x2.t))
+            self.memo[key] = (tot, x)
+        return self.ns.JulianDate(self.memo[key][1])
 
 
 def _token_agent(ns, aid, js, log, kind):
@@ -259,10 +264,11 @@ def run_steps(b_unused, dt, truth_only, mk_events, nsteps=3, pin=None, k0_max=No
                 nq = len(sc.database.queries)
                 sc.stepForward()
                 # agents advance with the clock and prune their queues, as PropagateRegistration.processResults does
-                for ag in list(sc.target_agents.values()) + list(sc._estimate_agents.values()):
-                    ag._time = sc.clock.time
-                    log.append(("queue", ag.simulation_id, s, list(ag.propagate_event_queue)))
-                    ag.prunePropagateEvents()
+                for kind, ags in (("target", sc.target_agents), ("estimate", sc._estimate_agents)):
+                    for ag in ags.values():
+                        ag._time = sc.clock.time
+                        log.append(("queue", (kind, ag.simulation_id), s, list(ag.propagate_event_queue)))
+                        ag.prunePropagateEvents()
                 wins.append(sc.database.queries[nq:])
         return dict(ns=ns, t0=t0, k0=k0, n0=n0, sod0=sod0, sc=sc, log=log, events=events, js=sc.clock.julian_date_start)
 
@@ -414,6 +420,7 @@ def _deliveries(out):
 
 def _decide_deliveries(rep, res, dt, tag, run):
     n = 0
+    pending = []  # (label, candidate, constraints, why) of paths whose relaxed query is satisfiable
     for k, r in enumerate(res):
         if r.exc is not None:
             if isinstance(r.exc, (Unsupported, TypeError, AttributeError, NameError)):
@@ -421,8 +428,7 @@ def _decide_deliveries(rep, res, dt, tag, run):
                 continue
             m = solve(r.constraints, 30000)
             if m.status == "sat":
-                cand = _inputs(dt, ("target",))(m.model)
-                _ladder(rep, f"raises{tag}#{k}", cand, dt, run, f"{type(r.exc).__name__}: {r.exc}", r.constraints)
+                pending.append((f"raises{tag}#{k}", _inputs(dt, ("target",))(m.model), list(r.constraints), f"{type(r.exc).__name__}: {r.exc}"))
             continue
         n += 1
         out = r.out
@@ -442,14 +448,12 @@ def _decide_deliveries(rep, res, dt, tag, run):
             carried[aid] = q
         goals = []
         # exactly one delivery, to the addressed target (and to its estimate iff planned), in the step containing m
-        tgt_adds = [(s, aid) for s, aid, _e in added]
-        targets_only = sorted(set(tgt_adds))
-        ok_count = len([1 for s, aid, _e in added]) in (1, 2)
         if not added:
             goals.append(z3.BoolVal(False))
         else:
-            s0, a0, imp = added[0]
-            goals.append(z3.BoolVal(len(targets_only) == 1 and ok_count))
+            s0, (_kind0, a0), imp = added[0]
+            # exactly one addition, to the truth agent (the row is not 'planned', so the estimate gets nothing)
+            goals.append(z3.BoolVal(len(added) == 1 and _kind0 == "target"))
             goals.append(tgt == a0)
             goals.append(z3.And(mt > (k0.t + s0) * dt, mt <= (k0.t + s0 + 1) * dt))
             # the queued impulse carries the row's time: within 1 ms of the configured second
@@ -464,76 +468,53 @@ def _decide_deliveries(rep, res, dt, tag, run):
         if v.status == "unknown":
             rep.undecided(f"delivery{tag}#{k}", v.reason)
             continue
-        cand = _inputs(dt, ("target",))(v.model)
-        _ladder(rep, f"delivery{tag}#{k}", cand, dt, run, "relaxed-rounding candidate", fp.sliced(r.path, goal) + [z3.Not(goal)])
+        pending.append((f"delivery{tag}#{k}", _inputs(dt, ("target",))(v.model), fp.sliced(r.path, goal) + [z3.Not(goal)], "relaxed-rounding candidate"))
     if n == 0:
         rep.error(f"reach{tag}", "no path returned normally")
+    if pending:
+        _ladder(rep, pending, dt)
 
 
-def _ladder(rep, label, cand, dt, run, why, cand_constraints):
-    reproduced, detail = replay_impulse(cand)
-    if reproduced:
-        rep.concrete_violation(label, cand, detail)
-        return
-    # exact encoding for the candidate's start date
-    start = _dt.datetime.fromisoformat(cand["start"])
-    pin = {"n0": (start - _dt.datetime(1901, 1, 1)).days}
-    with fp.mode("exact"):
-        res = explore(run(pin=pin), max_paths=400, max_depth=300, branch_timeout_ms=20000, catch=(Exception,))
-    sub = _SubRep(rep, label)
-    _decide_exact(sub, res, dt, label)
-    if sub.violation or sub.undecided_:
-        return
-    only = solve(list(cand_constraints) + [z3.Int("n0") != pin["n0"]], 60000)
-    rep._item(f"{label}:only-that-date", "prove", only)
-    if only.status == "unsat":
-        rep.note(f"{label}: relaxed-only candidate refuted in the exact encoding")
-        return
-    rep.undecided(label, f"relaxed candidate {cand} ({why}) is spurious for its start date in the exact encoding; not decided for other dates")
+N_CANDIDATES = 150
 
 
-class _SubRep:
-    def __init__(self, rep, label):
-        self.rep, self.label, self.violation, self.undecided_ = rep, label, False, False
-
-
-def _decide_exact(sub, res, dt, label):
-    rep = sub.rep
-    for k, r in enumerate(res):
-        if r.exc is not None:
-            continue
-        out = r.out
-        k0, mt, tgt = out["k0"], z3.Int("m"), z3.Int("target")
-        added, carried = [], {}
-        for x in out["log"]:
-            if x[0] != "queue":
+def _ladder(rep, pending, dt):
+    """Counterexample candidates of the relaxed (over-approximate) encoding.  The relaxed encoding admits rounding outcomes the
+    real doubles do not produce, so a candidate may fail to replay on the real code: further candidates are then drawn from the
+    solver (round-robin over the satisfiable paths, earlier start instants blocked, a different start date each time).  A
+    violation is reported only for a candidate that reproduces on the real code - one is enough, the search stops there; if
+    none of N_CANDIDATES does, the satisfiable paths stay undecided (never passed)."""
+    state = [dict(label=lb, cand=c, cons=list(cs), blocked=[], why=why, alive=True) for lb, c, cs, why in pending]
+    tried = 0
+    while tried < N_CANDIDATES and any(st["alive"] for st in state):
+        for st in state:
+            if not st["alive"]:
                 continue
-            _q, aid, s, q = x
-            old = carried.get(aid, [])
-            for e in q:
-                if not any(e is o for o in old):
-                    added.append((s, aid, e))
-            carried[aid] = q
-        if not added:
-            goal = z3.BoolVal(False)
-        else:
-            s0, a0, _imp = added[0]
-            goal = z3.And(z3.BoolVal(len(set((s, a) for s, a, _e in added)) == 1), tgt == a0, mt > (k0.t + s0) * dt, mt <= (k0.t + s0 + 1) * dt)
-        v = solve(fp.sliced(r.path, goal) + [z3.Not(goal)], 120000)
-        rep._item(f"{label}:exact#{k}", "prove", v)
-        if v.status == "sat":
-            c2 = _inputs(dt, ("target",))(v.model)
-            rp, det = replay_impulse(c2)
-            if rp:
-                rep.concrete_violation(f"{label}:exact", c2, det)
-            else:
-                rep.error(f"{label}:exact", f"bit-exact counterexample does not reproduce: {det}")
-            sub.violation = True
-            return
-        if v.status == "unknown":
-            rep.undecided(f"{label}:exact#{k}", v.reason)
-            sub.undecided_ = True
-            return
+            tried += 1
+            cand = st["cand"]
+            reproduced, detail = replay_impulse(cand)
+            if reproduced:
+                rep.note(f"{st['label']}: candidate #{tried} of the relaxed encoding reproduces on the real code")
+                rep.concrete_violation(st["label"], cand, detail)
+                return
+            start = _dt.datetime.fromisoformat(cand["start"])
+            delta = start - _dt.datetime(1901, 1, 1)
+            st["blocked"].append(z3.Int("n0") != delta.days)
+            # partial concretisation to diversify the models (the solver otherwise returns corner values - midnight starts, step 0 -
+            # where the real arithmetic happens to be exact): seeded residues for the start second, step index and date
+            rnd = random.Random(1000 * tried + len(st["blocked"]))
+            div = [z3.Int("sod0") % 997 == rnd.randrange(997), z3.Int("k0") % 101 == rnd.randrange(101), z3.Int("n0") % 89 == rnd.randrange(89), z3.Int("n0") >= 36000]
+            v = solve(st["cons"] + st["blocked"] + div, 30000)
+            if v.status != "sat":
+                v = solve(st["cons"] + st["blocked"], 30000)
+            if v.status != "sat":
+                st["alive"] = False
+                continue
+            st["cand"] = _inputs(dt, ("target",))(v.model)
+            if tried >= N_CANDIDATES:
+                break
+    for st in state:
+        rep.undecided(st["label"], f"counterexample candidates of the relaxed encoding ({st['why']}) did not reproduce on the real code ({tried} tried over {len(state)} paths); not decided")
 
 
 # ---- the query predicate ---------------------------------------------------------------------------
@@ -651,7 +632,7 @@ def o_scopes(rep, dt):
         for x in log:
             if x[0] == "assess":
                 _a, _eid, s, prior, now = x
-                goals.append(z3.And(prior.n * 86400 + prior.sod == t0.n * 86400 + t0.sod + (k0.t + s) * dt, now.n * 86400 + now.sod == t0.n * 86400 + t0.sod + (k0.t + s + 1) * dt))
+                goals.append(z3.And(prior.tot == t0.tot + (k0.t + s) * dt, now.tot == t0.tot + (k0.t + s + 1) * dt))
         goals.append(z3.BoolVal(len([x for x in log if x[0] == "assess"]) == 3 * len(ENG_IDS)))
         goal = z3.And(*goals)
         rep.prove(f"scopes{tag}#{k}", goal, fp.sliced(r.path, goal), timeout_ms=120000,
